@@ -64,7 +64,7 @@ Definition changes_reg (o : op) : bool :=
 (* handlers 6 (observer with a user filter), 7 (getter of the depends_on property) and 8 (validator of the
    synchronised partner) are outside the model as far as the fired flag goes *)
 Definition unmodelled_handler (pl : plan) : bool :=
-  match pl with FaultHandler j _ => (Nat.leb 6 j && Nat.leb j 8) || Nat.eqb j 11 | _ => false end.
+  match pl with FaultHandler j _ => (Nat.leb 6 j && Nat.leb j 8) || Nat.leb 11 j | _ => false end.
 
 (* codes: 100*step + 1 outcome, 2 state of the faulted object, 3 handler log, 4 fired flag, 5 twin state,
    6 registrations (a modelled operation registers or removes nothing: the digest stays what it was).
